@@ -136,8 +136,18 @@ static int build_node(char **tok, int ntok, int *pos, struct json_object **out)
 		if (!ob) return -1;
 		while (*pos < ntok && tok[*pos][0] != '}') {
 			struct json_object *c = NULL; size_t n; unsigned char *k;
-			if (tok[*pos][0] != 'k') { json_object_put(ob); return -1; }
-			k = unhex(tok[(*pos)++], &n);
+			int constant;
+			if (tok[*pos][0] != 'k' && tok[*pos][0] != 'K') { json_object_put(ob); return -1; }
+			constant = tok[*pos][0] == 'K';   /* K<hex>: member added with JSON_C_OBJECT_ADD_CONSTANT_KEY (the key is interned for the life of the process) */
+			k = unhex(tok[(*pos)++] + 1, &n);
+			if (constant) {
+				static char *interned[4096]; static int ninterned; int ii;
+				for (ii = 0; ii < ninterned; ii++) if (!strcmp(interned[ii], (char *)k)) break;
+				if (ii == ninterned) { if (ninterned < 4096) interned[ninterned++] = strdup((char *)k); else constant = 0; }
+				if (constant) { free(k); k = NULL;
+					if (build_node(tok, ntok, pos, &c) < 0 || json_object_object_add_ex(ob, interned[ii], c, JSON_C_OBJECT_ADD_CONSTANT_KEY) != 0) { json_object_put(c); json_object_put(ob); return -1; }
+					continue; }
+			}
 			if (build_node(tok, ntok, pos, &c) < 0 || json_object_object_add(ob, (char *)k, c) != 0) { free(k); json_object_put(c); json_object_put(ob); return -1; }
 			free(k);
 		}
